@@ -123,6 +123,22 @@ def handleExpr (op : String) (args : List Sexp) : Option Sexp :=
         | .ok ca, .ok cb => tagged "ok" [exprToSexp ca, exprToSexp cb]
         | .error err, _ => err.toSexp
         | _, .error err => err.toSexp)
+  | "canonicalize_twice_opt", [e, o] => do   -- the public entry point, `ordering=None` allowed (recomputed at each call)
+      let e ← wfExpr? e
+      let o ← optVarsOf? o
+      pure (match canonicalize e o with
+        | .ok c1 => (match canonicalize c1 o with
+            | .ok c2 => tagged "ok" [exprToSexp c1, exprToSexp c2]
+            | .error err => err.toSexp)
+        | .error err => err.toSexp)
+  | "canonicalize_pair_opt", [a, b, o] => do
+      let a ← wfExpr? a
+      let b ← wfExpr? b
+      let o ← optVarsOf? o
+      pure (match canonicalize a o, canonicalize b o with
+        | .ok ca, .ok cb => tagged "ok" [exprToSexp ca, exprToSexp cb]
+        | .error err, _ => err.toSexp
+        | _, .error err => err.toSexp)
   | "canonical_equal", [a, b] => do pure (replyB (canonicalExprEqual (← wfExpr? a) (← wfExpr? b)))
   | "mul", [a, b] => do pure (replyE ((← wfExpr? a).mul (← wfExpr? b)))
   | "div", [a, b] => do pure (replyE ((← wfExpr? a).div (← wfExpr? b)))
